@@ -97,6 +97,34 @@ def lean_sources():
                 yield os.path.join(root, f)
 
 
+_IMPORT = re.compile(r'^\s*(?:public\s+)?import\s+([A-Za-z0-9_.]+)', re.M)
+
+
+def lean_closure(mod):
+    """Source files in the import closure of the property's own Lean modules (its proofs and driver)."""
+    exe_roots = {}
+    try:
+        lf = open(os.path.join(LEAN, 'lakefile.toml')).read()
+        for m in re.finditer(r'name = "(drv_\w+)"\s+root = "([\w.]+)"', lf):
+            exe_roots[m.group(1)] = m.group(2)
+    except OSError:
+        pass
+    todo = [exe_roots.get(t, t) for t in getattr(mod, 'LEAN_TARGETS', [])]
+    todo += list(getattr(mod, 'AUDIT_IMPORTS', []))
+    seen, files = set(), []
+    while todo:
+        m = todo.pop()
+        if m in seen:
+            continue
+        seen.add(m)
+        path = os.path.join(LEAN, *m.split('.')) + '.lean'
+        if not os.path.exists(path):
+            continue
+        files.append(path)
+        todo += _IMPORT.findall(open(path).read())
+    return sorted(files)
+
+
 class LeanStatus:
     def __init__(self):
         self.build_ok = False
@@ -170,7 +198,8 @@ def lean_prepare(mod, ctx) -> LeanStatus:
                 rc2, _ = _run(['lake', 'build', drv], cwd=LEAN)
                 st.driver_ok = rc2 == 0
         # forbidden tokens anywhere in the Lean sources (comments and strings stripped)
-        for path in lean_sources():
+        closure = lean_closure(mod)
+        for path in closure:
             code = _strip_lean_comments(open(path).read())
             for m in FORBIDDEN.finditer(code):
                 st.forbidden.append('%s: %r' % (os.path.relpath(path, LEAN), m.group(0).strip()))
@@ -183,7 +212,7 @@ def lean_prepare(mod, ctx) -> LeanStatus:
             src = ''.join('import %s\n' % m for m in mods) + ''.join('#print axioms %s\n' % t for t in thms)
             key = hashlib.sha256()
             key.update(src.encode())
-            for path in sorted(lean_sources()):
+            for path in closure:
                 key.update(path.encode())
                 key.update(open(path, 'rb').read())
             cache = os.path.join(LEAN, '.audit', mod.PROPERTY + '.cache.json')
